@@ -52,6 +52,10 @@ def scenarios(tier):
         for pf in (None, "both", "first"):
             pe.append(dict(keys=[k], final=None, ts=(k == "m"), tl=(k == "M"), alt=alt, layout="paired", pf=pf, sides="both"))
             pe.append(dict(keys=FILTER_KEYS, final="discard_untrimmed", ts=False, tl=False, alt=alt, layout="interleaved", pf=pf, sides="r1"))
+    for side in ("info_file", "rest_file", "wildcard_file"):
+        for layout in ("single", "paired"):
+            for final in (None, "untrimmed_output"):
+                pe.append(dict(keys=["m", "max_n"], final=final, ts=True, tl=False, alt=None, layout=layout, pf=None, sides="both", side=side))
     return S + pe
 
 
@@ -77,6 +81,8 @@ def opts_of(sc):
     if sc["pf"]:
         o["pair_filter"] = sc["pf"]
     outs = dict(too_short_output=sc["ts"], too_long_output=sc["tl"], untrimmed_output=sc["final"] == "untrimmed_output")
+    if sc.get("side"):
+        outs[sc["side"]] = True
     return o, outs
 
 
